@@ -68,6 +68,21 @@ def forLoop {m : Type → Type} [Monad m] {α σ ρ : Type} : List α → σ →
     | Sum.inl r => pure r
     | Sum.inr s' => forLoop xs s' body k
 
+/-- what one round of a `for` loop with `break` / `continue` in its body answers -/
+inductive Step (ρ σ : Type) where
+  | ret (r : ρ)        -- `return r`
+  | brk (s : σ)        -- `break`
+  | next (s : σ)       -- `continue`, or the end of the body
+
+/-- `for x in xs: body` with `break` / `continue`, followed by the rest of the function -/
+def forLoopB {m : Type → Type} [Monad m] {α σ ρ : Type} : List α → σ → (α → σ → m (Step ρ σ)) → (σ → m ρ) → m ρ
+  | [], s, _, k => k s
+  | x :: xs, s, body, k => do
+    match ← body x s with
+    | Step.ret r => pure r
+    | Step.brk s' => k s'
+    | Step.next s' => forLoopB xs s' body k
+
 /-- `while True: body`, at most `fuel` rounds; the body answers `Sum.inl r` for `return r` and `Sum.inr s` with the loop-carried
 variables when it falls off its end.  `dflt` is what the model answers when the fuel runs out (never a Python outcome; the callers
 give fuel that suffices) -/
